@@ -236,6 +236,10 @@ def frame(obj) -> bytes:
 # stub database backend (for checks where the store is irrelevant)
 
 
+class InjectedFault(RuntimeError):
+    '''a transient fault of the environment injected by the harness'''
+
+
 class StubDB:
     '''registered as dawgie.db.verifstub; dawgie.db dispatches to it when
     dawgie.context.db_impl == 'verifstub' '''
@@ -245,6 +249,8 @@ class StubDB:
         self.next_id = 1
         self.next_calls = 0
         self.issued = []
+        self.fail_next = 0
+        self.faults = 0
         self.version_tables = ({}, {}, {}, {})
 
     def install(self):
@@ -269,6 +275,10 @@ class StubDB:
         return True
 
     def _next(self):
+        if self.fail_next:
+            self.fail_next -= 1
+            self.faults += 1
+            raise InjectedFault('database unavailable (injected)')
         self.next_calls += 1
         self.next_id += 1
         self.issued.append(self.next_id - 1)
